@@ -23,15 +23,21 @@ type liveNode struct {
 }
 
 type liveParam struct {
-	t    typ
-	pv   bool // parameter.Value[T] (else nodes.ValueNode[T])
-	node nodes.Node
-	outS func(alt bool) nodes.NodeOutput[string]
-	outI func(alt bool) nodes.NodeOutput[int]
-	setS func(string)
-	setI func(int)
-	outV func(alt bool) nodes.NodeOutput[[]vector3.Float64]
-	outR func(alt bool) nodes.NodeOutput[Rec]
+	t     typ
+	pv    bool // parameter.Value[T] (else nodes.ValueNode[T])
+	node  nodes.Node
+	outS  func(alt bool) nodes.NodeOutput[string]
+	outI  func(alt bool) nodes.NodeOutput[int]
+	setS  func(string)
+	setI  func(int)
+	outV  func(alt bool) nodes.NodeOutput[[]vector3.Float64]
+	outR  func(alt bool) nodes.NodeOutput[Rec]
+	outF  func(alt bool) nodes.NodeOutput[float64]
+	outFs func(alt bool) nodes.NodeOutput[[]float64]
+	outM  func(alt bool) nodes.NodeOutput[map[string]int]
+	setF  func(float64)
+	setFs func(content []float64, inPlace bool)
+	setM  func(content map[string]int, inPlace bool)
 	// parameter.Value sources only: apply a raw message; compare what the readers
 	// of the parameter (Value() directly and through its output, ToMessage()) return
 	// with the mirrored value ("" = equal)
@@ -91,10 +97,13 @@ func readersDiff[T any](p *parameter.Value[T], alt bool, eq func(T) bool, show f
 }
 
 type srcFns struct {
-	s func(r *ref) nodes.NodeOutput[string]
-	i func(r *ref) nodes.NodeOutput[int]
-	v func(r *ref) nodes.NodeOutput[[]vector3.Float64]
-	c func(r *ref) nodes.NodeOutput[Rec]
+	s  func(r *ref) nodes.NodeOutput[string]
+	i  func(r *ref) nodes.NodeOutput[int]
+	v  func(r *ref) nodes.NodeOutput[[]vector3.Float64]
+	c  func(r *ref) nodes.NodeOutput[Rec]
+	f  func(r *ref) nodes.NodeOutput[float64]
+	fs func(r *ref) nodes.NodeOutput[[]float64]
+	mp func(r *ref) nodes.NodeOutput[map[string]int]
 }
 
 func wrapS[G nodes.StructProcesor[string]](n *nodes.Struct[string, G], r *rec) *liveNode {
@@ -208,11 +217,24 @@ func buildNode(mn *mnode, r *rec, literal, useNew bool, src srcFns) *liveNode {
 		return mkS(VFmt{In: src.v(nm(0)), R: r}, useNew, r)
 	case kRFmt:
 		return mkS(RFmt{In: src.c(nm(0)), R: r}, useNew, r)
+	case kFBits:
+		return mkS(FBits{In: src.f(nm(0)), R: r}, useNew, r)
+	case kFInv:
+		return mkS(FInv{In: src.f(nm(0)), R: r}, useNew, r)
+	case kFAtan:
+		return mkS(FAtan{A: src.f(nm(0)), B: src.f(nm(1)), R: r}, useNew, r)
+	case kFsFmt:
+		return mkS(FsFmt{In: src.fs(nm(0)), R: r}, useNew, r)
+	case kMFmt:
+		return mkS(MFmt{In: src.mp(nm(0)), R: r}, useNew, r)
 	}
 	panic("unknown kind")
 }
 
 func buildParam(mp *mparam, pv bool, name string) *liveParam {
+	if mp.t == tF || mp.t == tFs || mp.t == tM {
+		return buildFloaty(mp, pv, name)
+	}
 	lp := &liveParam{t: mp.t, pv: pv}
 	switch {
 	case mp.t == tV:
